@@ -36,6 +36,9 @@ def route(run_props, o):
         return [p.strip() for p in m.group(1).split(',')]
     if o['kind'] == 'safety' and 'model capacity' not in (o['desc'] or ''):
         return ['C20'] if 'C20' in run_props else []
+    if o['kind'] == 'callee_pre':
+        # a call that violates the callee's precondition also leaves the callee's safety proof (made under that precondition) without cover
+        return list(run_props)
     return [p for p in run_props if p != 'C20'] or list(run_props)
 
 
